@@ -50,18 +50,20 @@ theorem C09_saved_index_equiv (idx : List Rec) (data : Bytes) (hwf : ∀ r ∈ i
   simp only [List.getLast?_append, List.getLast?_singleton, Option.some_or]
   simp [eofMarker]
 
-/-- **A changed data size is noticed.** With the complete index file on disk, any data file of a
-different size is refused with the error the caller handles by re-indexing. -/
+/-- **A changed data size is noticed, and the stale index does not survive.** With the complete index
+file on disk, any data file of a different size is refused with the error the caller handles by
+re-indexing, and the index file is deleted (so that it cannot be accepted again should the data file
+later return to the old size while a re-indexing in between found nothing to save). -/
 theorem C09_size_change_rejected (idx : List Rec) (n : Nat) (data' : Bytes) (hwf : ∀ r ∈ idx, r.WF)
     (hn : n < 18446744073709551616) (hsize : data'.length ≠ n) :
-    ∃ del, load (encodeRecs (idx ++ [eofMarker n])) data' = .valueError del := by
+    load (encodeRecs (idx ++ [eofMarker n])) data' = .valueError true := by
   unfold load
   rw [decodeRecs_encodeRecs _ (wf_append hwf hn)]
   by_cases h0 : data'.length = 0
-  · exact ⟨true, by rw [if_pos ⟨h0, by simp⟩]⟩
+  · rw [if_pos ⟨h0, by simp⟩]
   · rw [if_neg (by simp [h0]), if_neg (by simp)]
     simp only [List.getLast?_append, List.getLast?_singleton, Option.some_or]
-    exact ⟨false, by simp [eofMarker, hsize]⟩
+    simp [eofMarker, hsize]
 
 /-- **Every crash point of `save`, every later growth or shrinkage of the data file.**
 Let the index of data file `d` (its offsets are the sequential scan of `d`) have been saved, and let
